@@ -48,7 +48,7 @@ def kind : Kind where
       | [.atom "skip", _, _] => { st := st, tags := ["pair-skip"] }
       | [first, again, al] =>
         { st := st, tags := ["pair"], nontrivial := st.big
-          spec := if Spec.C16.pairOk (baseName h2) (toString first) (toString again) (al.bool? == some true) then none
+          spec := if Spec.C16.pairOk (baseName _h1) (baseName h2) (toString first) (toString again) (al.bool? == some true) then none
                   else some s!"earlier-result-unaltered:{_h1}:{h2}" }
       | _ => { st := st, bad := some "c16 pair: bad result shape" }
     | _, _ => { st := st, bad := some s!"bad c16 line {l.op}" }
